@@ -19,6 +19,10 @@ MODS = {
     'starb.py': 'from stara import *\nsb = 2\n',
     'pk/__init__.py': 'from . import sub\nfrom .sub import deep\n',
     'pk/sub.py': 'deep = 1\nfrom . import sub as again\n',
+    'ring1.py': 'from ring3 import h\n',
+    'ring2.py': 'from ring1 import h\n',
+    'ring3.py': 'from ring2 import h\n',
+    'selfimp.py': 'from selfimp import me\n',
 }
 
 ADVERSARIAL = [
@@ -64,6 +68,12 @@ ADVERSARIAL = [
     'a = 1\n\tb = 2\n',
     'f(\n  a,\n  b.c,\n)\n',
     'if x:\n  pass\nelif y:\n  z = x.w\nelse:\n  z.q\n',
+    'from ring1 import h\nh.a\nh\nfrom selfimp import me\nme.x\n',
+    '*(a, b), c = x\na\nfor *(p, q), r in y: p\n[0 for *(s, t), u in z]\n',
+    'import os.path\nos\nos.path\nimport xml.dom\nxml\n',
+    'class A:\n    def f(self):\n        self.a = self.b\n        self.b = self.a\n        self.a.x\n        self.b\n',
+    'class A(A): pass\nA.x\nA().y\nclass B(C): pass\nclass C(D): pass\nclass D(B):\n    d = 1\nB().d\nC.d\n',
+    'x = x.y = x\nx.y.y\n',
 ]
 
 
@@ -86,7 +96,7 @@ def family_programs():
     for sh in tharness.all_shapes():
         if sh.name.startswith('enum_') and int(sh.name[5:]) % 12:
             continue
-        parts = [q for q in family.partitions(sh.slots) if tharness.compiles(sh, q, [])]
+        parts = [q for q in family.var_partitions(sh, 60) if tharness.compiles(sh, q, [])]
         if parts:
             out.append(family.render(sh, tharness.canon(sh, parts[len(parts) // 2], [])))
     return out
